@@ -19,7 +19,7 @@ func init() {
 		Explanation: "R1 naming: extractsev.GCETcbObjectName / extracttdx.GCETcbObjectName / verify.GCETcbURL are built only from string constants and the parameter, the measurement enters only through hex.EncodeToString, and the SEV and TDX technology segments are different constants of the form <tech>/%s.binarypb. " +
 			"R2 fetch only for full-length measurements: every HTTPSGetter.Get in extract, verify and gcetcbendorsement whose URL derives from GCETcbURL — the origins of its object-name operand are enumerated; each origin that is a GCETcbObjectName(m) call must, at its own site, be dominated by the equal edge of a comparison of len(m) with 48 for that same m; a constant (empty) origin requires the Get to be dominated by name != \"\"; any other origin is a violation. " +
 			"R3 local first, verbatim (ESP on extract.Endorsement): no Get on a path where event-log evidence or quote evidence was found and ForceFetch is known false; returned evidence is the callee's result value itself. " +
-			"R4 confinement: in extract/eventlog every os file access takes a path produced by securejoin.SecureJoin rooted at the reader's Root (error checked). " +
+			"R3b in the event-log lookup at most one locator is resolved per call (the first match in precedence order decides; a failed local locator does not fall through to the network one). R4 confinement: in extract/eventlog every os file access takes a path produced by securejoin.SecureJoin rooted at the reader's Root (error checked). " +
 			"R5 emitted events: both SP800-155 events are built with one GUID value; the URI locator is GCETcbURL of a name derived from hex(golden digest). " +
 			"Not covered: parse-back equality of emitted events, symlink behaviour (securejoin trusted), the URL the firmware itself emitted in an event log (exel.Locate fetches it as is).",
 		Assumptions: []string{"go/types, go/ssa", "securejoin.SecureJoin confines the joined path under its root", "hex.EncodeToString is injective"},
@@ -283,6 +283,41 @@ func runC16(c *Ctx) {
 			c.S.OK("R3", "extract.Endorsement:verbatim", c.pos(end.Pos()), "every returned blob is a lookup's result value itself", true)
 		}
 	}
+
+	// ---------------- R3b: one locator per lookup ----------------
+	locate := c.P.Func("extract/eventlog", "Locate")
+	nLoc := 0
+	if locate != nil {
+		for _, f := range c.funcsCalling(func(call ssa.CallInstruction) bool { return call.Common().StaticCallee() == locate }) {
+			if load.RelPkg(f) != "extract" {
+				continue
+			}
+			nLoc++
+			name := load.FuncName(f)
+			const bLocated uint = 0
+			r := &esp.Rule{Name: "C16.R3b"}
+			r.Relevant = func(*ssa.Function) bool { return false }
+			r.Match = func(in ssa.Instruction) []esp.Ev {
+				if call, ok := in.(ssa.CallInstruction); ok && call.Common().StaticCallee() == locate {
+					return []esp.Ev{{ID: 0, Name: "resolve locator", ErrIdx: -1, BoolIdx: -1}}
+				}
+				return nil
+			}
+			r.Step = func(x *esp.Ctx, s esp.State, ev esp.Ev, ph esp.Phase) (esp.State, string) {
+				if s.Has(bLocated) {
+					return s, "R3b: a second locator is resolved after the first matching one in the same lookup: a lower-precedence (possibly network) source is consulted after a local one failed, before the attestation's own evidence"
+				}
+				return s.Set(bLocated), ""
+			}
+			e := c.engine(r)
+			e.Run(f, esp.State{})
+			n := c.reportEngine(e, "R3b", func(v *esp.Violation) string { return name + ":one locator" })
+			if n == 0 {
+				c.S.OK("R3b", name+":one locator", c.pos(f.Pos()), "the first matching locator in precedence order decides the lookup", true)
+			}
+		}
+	}
+	c.S.Floor("R3b", "event-log locator lookups in package extract", 1, nLoc)
 
 	// ---------------- R4 ----------------
 	nOpen := 0
